@@ -46,21 +46,117 @@ def mismatches(txt):
     return out
 
 
-def run_restartable(ctx, binary, mode, cases, trace, extra, timeout=900):
-    """Drivers exit with 7 after a decoder call that never returned (it cannot be stopped); re-run behind that case."""
-    parts = []
-    start = 0
-    for attempt in range(12):
+_DRV_N = [0]
+
+
+def driver_rc(ctx, binary, args, timeout=900):
+    """Like vlib.run_driver, but hands back the exit code: a driver that dies is this property's subject, not only a mishap."""
+    import subprocess
+    env = vlib.go_env()
+    env["VERIF_SEED"] = str(ctx.seed)
+    env["VERIF_TIER"] = ctx.tier
+    env["VERIF_REPO"] = vlib.REPO
+    _DRV_N[0] += 1
+    logp = os.path.join(ctx.tmp, "c08-driver-%d.log" % _DRV_N[0])
+
+    def go():
+        with open(logp, "w") as fh:
+            return subprocess.run(["timeout", "-k", "10", str(timeout), binary] + args, stdout=fh, stderr=subprocess.STDOUT,
+                                  env=env, stdin=subprocess.DEVNULL, cwd=ctx.tmp).returncode
+    rc = blocking(go)
+    if rc in (124, 137):
+        raise vlib.Inconclusive("driver timeout: %s %s (log %s)\n%s" % (binary, args, logp, vlib.tail(logp)))
+    return rc, logp
+
+
+FATAL = re.compile(r"^(fatal error: .*|panic: .*)$", re.M)
+
+
+def death_of(logp):
+    """First line of a Go runtime fatal error / unrecovered panic in the driver log whose stack runs through mosn packages."""
+    txt = open(logp, errors="replace").read()
+    m = FATAL.search(txt)
+    if not m:
+        return None, txt
+    rest = txt[m.start():]
+    if "mosn.io/mosn/pkg/" not in rest and "mosn.io/pkg/" not in rest:
+        return None, txt
+    return m.group(1).strip()[:160], rest[:6000]
+
+
+def case_class(mode, cj):
+    if cj is None:
+        return "unknown"
+    k = cj.get("kind")
+    if mode == "xdec":
+        if "patch" in cj:
+            return "str:%s:%s" % (cj.get("codec"), cj.get("name"))
+        return "%s:%s" % (cj.get("codec"), "pristine" if cj.get("mut") == "none" else cj.get("field"))
+    if k == "seq":
+        return "seq:%s:%s" % (cj.get("target"), cj.get("name"))
+    if k == "slist":
+        return "slist:%s:id%s" % (cj.get("target"), "+".join(str(x) for x in sorted(set(i["id"] for i in cj.get("items", [])))))
+    if k == "hpint":
+        return "hpint:%s:%s" % (cj.get("target"), cj.get("field"))
+    if k == "fval":
+        return "fval:%s:%s" % (H2T.get(cj.get("t"), cj.get("t")), cj.get("vname"))
+    if k == "hpack":
+        return "hpack:" + "+".join(r["name"] for r in cj.get("reps", []))
+    return "h2:" + "+".join(H2T.get(f["t"], str(f["t"])) for f in cj.get("frames", []))
+
+
+def run_cases(ctx, binary, mode, cases, trace, extra, timeout=900):
+    """Runs a unit-level driver over all cases.
+    exit 7: a call never returned (cannot be stopped) -> re-run behind that case.
+    any other death: if the log shows a runtime fatal error / panic through mosn packages, the case named in the progress
+    file is run alone once more; dies again the same way -> VIOLATION ...:process-died:..., and everything is run again
+    without that case; survives -> inconclusive."""
+    lines = open(cases).read().splitlines()
+    prog = trace + ".progress"
+    parts, start, rand_off, deaths = [], 0, False, 0
+    for attempt in range(60):
         part = "%s.part%d" % (trace, attempt)
-        logp = run_driver(ctx, binary, ["-mode", mode, "-cases", cases, "-trace", part, "-from", str(start)] + extra,
-                               timeout=timeout, ok_codes=(0, 7))
+        ex = list(extra)
+        if rand_off and "-rand" in ex:
+            ex[ex.index("-rand") + 1] = "0"
+        rc, logp = driver_rc(ctx, binary, ["-mode", mode, "-cases", cases, "-trace", part, "-from", str(start), "-progress", prog] + ex,
+                             timeout=timeout)
         parts.append(part)
-        m = re.search(r"LOOP at case (\d+)", open(logp, errors="replace").read())
-        if not m:
+        if rc == 0:
             break
-        start = int(m.group(1))
+        if rc == 7:
+            m = re.search(r"LOOP at case (\d+)", open(logp, errors="replace").read())
+            if not m:
+                raise vlib.Inconclusive("driver exit 7 without a loop report\n" + vlib.tail(logp))
+            start = int(m.group(1))
+            continue
+        # the process died
+        first, stack = death_of(logp)
+        where = open(prog).read().strip() if os.path.exists(prog) else ""
+        if not first or not where:
+            raise vlib.Inconclusive("driver %s died rc=%s without an attributable runtime error (at: %s)\n%s" % (mode, rc, where[:80], vlib.tail(logp)))
+        if where.startswith("case "):
+            x = int(where.split()[1])
+            cj = json.loads(lines[x - 1]) if 0 < x <= len(lines) else None
+            rc2, logp2 = driver_rc(ctx, binary, ["-mode", mode, "-cases", cases, "-trace", trace + ".confirm", "-only", str(x), "-rand", "0"], timeout=300)
+            cls, what = case_class(mode, cj), dict(case=x, input=cj)
+        else:  # "rand <target> <hex>"
+            _, codec, hx = (where.split() + ["", ""])[:3]
+            rc2, logp2 = driver_rc(ctx, binary, ["-mode", "one", "-codec", codec, "-hex", hx], timeout=300)
+            cls, what = "rand:%s" % codec, dict(input_hex=hx[:400])
+        first2, _ = death_of(logp2)
+        if rc2 == 0 or first2 != first:
+            raise vlib.Inconclusive("driver %s died at %s (%s) but the case alone does not reproduce it (rc=%s, %s)\n%s" %
+                                    (mode, where[:80], first, rc2, first2, vlib.tail(logp)))
+        vlib.report_failure(ctx, "C08:%s:%s:process-died:%s" % (mode, cls, first), dict(what, died=first, confirmed_alone=True, log_tail=stack))
+        vlib.log("[C08] %s: the process died at %s (%s), confirmed alone; going on behind it" % (mode, where[:60], first))
+        deaths += 1
+        if where.startswith("case "):
+            start = x            # the events of the cases before it are on disk; go on behind it
+        else:
+            rand_off, start = True, len(lines)
     else:
-        ctx.notes.append("%s: %d decoder calls never returned; the cases behind case %d were not run" % (mode, len(parts), start))
+        ctx.notes.append("%s: the driver was restarted %d times (%d deaths); the cases behind case %d were not run" % (mode, len(parts), deaths, start))
     with open(trace, "w") as fo:
         for p in parts:
             if os.path.exists(p):
@@ -107,6 +203,8 @@ H2T = {0: "DATA", 1: "HEADERS", 2: "PRIORITY", 3: "RST_STREAM", 4: "SETTINGS", 6
 def h2_sig(e, kind):
     if e["ev"] == "randh2":
         return "C08:randh2:%s:%s" % (e.get("target"), kind)
+    if e["ev"] == "seq":
+        return "C08:seq:%s:%s:%s" % (e.get("target"), e.get("name"), kind)
     if e["ev"] == "slist":
         ids = sorted(set(i["id"] for i in e.get("items", [])))
         shape = "single" if len(e.get("items", [])) == 1 else "repeated"
@@ -139,7 +237,7 @@ def run(ctx):
         lines.sort(key=lambda ln: '"val":2000000000' in ln)
         open(cases, "w").write("\n".join(lines) + "\n")
         trace = os.path.join(ctx.tmp, "xdec.ndjson")
-        run_restartable(ctx, binary, "xdec", cases, trace, ["-rand", "3000" if q else "100000"], timeout=1500)
+        run_cases(ctx, binary, "xdec", cases, trace, ["-rand", "3000" if q else "100000"], timeout=1500)
         evs = validate(ctx, "wire", "MalformedTrace", trace, "xdec", xdec_sig, ("xdec",))
         nx = sum(1 for e in evs if e["ev"] in ("xdec", "str"))
         ctx.cov["evaluations"] += sum(len(e["runs"]) + 3 * len(e["ms"]) for e in evs if e["ev"] == "xdec")
@@ -153,15 +251,15 @@ def run(ctx):
         cases = os.path.join(ctx.tmp, "h2cases.jsonl")
         r = run_tlc(ctx, "wire", "MalformedH2", "MalformedH2.cfg" if q else "MalformedH2_thorough.cfg", workers=1, cases_to=cases, timeout=1500)
         ctx.add_tlc(r)
-        for d in ("ContOffsetStuck", "SignedIndexCheck", "SignedStringLength", "TruncatedSizeUpdate", "ValidateFirstOccurrence", "NoRangeCheck"):
+        for d in ("ContOffsetStuck", "SignedIndexCheck", "SignedStringLength", "TruncatedSizeUpdate", "ValidateFirstOccurrence", "NoRangeCheck", "DataOnClosedAccepted", "FatalOnClosedData"):
             if run_tlc(ctx, "wire", "MalformedH2", "MalformedH2_defect_%s.cfg" % d, expect_ok=False)["ok"]:
                 raise vlib.Inconclusive("MalformedH2 model does not reject defect " + d)
         trace = os.path.join(ctx.tmp, "h2.ndjson")
-        run_restartable(ctx, binary, "h2", cases, trace, ["-rand", "3000" if q else "100000"], timeout=1500)
-        evs = validate(ctx, "wire", "MalformedH2Trace", trace, "h2", h2_sig, ("h2", "hpack", "hpint", "fval", "slist"))
-        ctx.cov["evaluations"] += sum(len(e.get("runs", [1, 1])) for e in evs if e["ev"] in ("h2", "hpack", "hpint", "fval", "slist"))
+        run_cases(ctx, binary, "h2", cases, trace, ["-rand", "3000" if q else "100000"], timeout=1500)
+        evs = validate(ctx, "wire", "MalformedH2Trace", trace, "h2", h2_sig, ("h2", "hpack", "hpint", "fval", "slist", "seq"))
+        ctx.cov["evaluations"] += sum(len(e.get("runs", [1, 1])) for e in evs if e["ev"] in ("h2", "hpack", "hpint", "fval", "slist", "seq"))
         ctx.cov["evaluations"] += sum(3 * e["count"] for e in evs if e["ev"] == "randh2")
-        ctx.cov["distinct_nontrivial"] += sum(1 for e in evs if e["ev"] in ("h2", "hpack", "hpint", "fval", "slist"))
+        ctx.cov["distinct_nontrivial"] += sum(1 for e in evs if e["ev"] in ("h2", "hpack", "hpint", "fval", "slist", "seq"))
         ctx.sample({"part": "hpint", "event": next((e for e in evs if e["ev"] == "hpint" and e["class"] == "maxacc"), None)})
         ctx.sample({"part": "h2", "event": next((e for e in evs if e["ev"] == "h2" and len(e["frames"]) > 2), evs[0])})
         ctx.sample({"part": "hpack", "event": next((e for e in evs if e["ev"] == "hpack" and e["n"] > 3), None)})
@@ -175,20 +273,42 @@ def run(ctx):
             if run_tlc(ctx, "server", "Containment", "Containment_defect_%s.cfg" % d, expect_ok=False)["ok"]:
                 raise vlib.Inconclusive("Containment model does not reject defect " + d)
         trace = os.path.join(ctx.tmp, "e2e.ndjson")
-        # exit codes: 0 done, 7 bailed out because the proxy wedged (event in the trace), 2 = Go runtime died (panic in the proxy)
-        logp = run_driver(ctx, binary, ["-mode", "e2e", "-cases", menu, "-trace", trace], timeout=600, ok_codes=(0, 2, 7))
-        logtxt = open(logp, errors="replace").read()
-        evs = vlib.read_jsonl(trace) if os.path.exists(trace) else []
-        if not any(e["ev"] in ("alive", "wedged") for e in evs):
-            m = re.search(r"^(panic: .*|fatal error: .*)$", logtxt, re.M)
-            if not m:
-                raise vlib.Inconclusive("e2e driver ended without verdict events:\n" + logtxt[-2000:])
-            where = re.search(r"^(mosn\.io/mosn/pkg/\S+)\([^()]*\)$", logtxt[m.start():], re.M)
-            sent = [e for e in evs if e["ev"] == "poison"]
-            seen = set(e["c"] for e in evs if e["ev"] == "seen")
-            vlib.report_failure(ctx, "C08:e2e:process-crashed:%s" % (where.group(1) if where else "unknown"),
-                                dict(panic=m.group(1)[:300], stack=logtxt[m.start():m.start() + 1500],
-                                     poisons_in_flight=[e for e in sent if e["c"] not in seen][:30]))
+
+        def e2e_run(tag, extra_args, timeout=600):
+            t = "%s.%s" % (trace, tag)
+            rc, logp = driver_rc(ctx, binary, ["-mode", "e2e", "-cases", menu, "-trace", t] + extra_args, timeout=timeout)
+            return rc, logp, (vlib.read_jsonl(t) if os.path.exists(t) else []), t
+
+        # exit codes: 0 done, 7 bailed out because the proxy wedged (event in the trace); anything else: the process that hosts the
+        # proxy died. With a runtime fatal error / panic in its log that is this property's violation once it is pinned on one
+        # poison: the poisons are sent again one at a time (the last one sent is it), then that one alone in a fresh process.
+        skipped = []
+        for _round in range(5):
+            rc, logp, evs, tfile = e2e_run("batch%d" % _round, ["-skip", ",".join(skipped)])
+            if any(e["ev"] in ("alive", "wedged") for e in evs):
+                break
+            first, stack = death_of(logp)
+            if not first:
+                raise vlib.Inconclusive("e2e driver ended rc=%s without verdict events and without a runtime error:\n%s" % (rc, vlib.tail(logp)))
+            rc_s, logp_s, evs_s, _ = e2e_run("seq%d" % _round, ["-seq", "-skip", ",".join(skipped)], timeout=900)
+            first_s, _ = death_of(logp_s)
+            sent = [e for e in evs_s if e["ev"] == "poison"]
+            if any(e["ev"] == "alive" for e in evs_s) or first_s != first or not sent:
+                raise vlib.Inconclusive("the e2e process died (%s) but not again with the poisons sent one at a time (%s):\n%s" % (first, first_s, stack[:1500]))
+            x = sent[-1]
+            key = "%s/%s" % (x["proto"], x["name"])
+            rc_o, logp_o, evs_o, _ = e2e_run("only%d" % _round, ["-onlyname", key], timeout=300)
+            first_o, _ = death_of(logp_o)
+            if any(e["ev"] == "alive" for e in evs_o) or first_o != first:
+                raise vlib.Inconclusive("the e2e process died (%s) after poison %s but not with that poison alone (%s)" % (first, key, first_o))
+            vlib.report_failure(ctx, "C08:e2e:%s:%s:process-died:%s" % (x["proto"], x["name"], first),
+                                dict(poison=x, died=first, confirmed_alone=True, log_tail=stack))
+            vlib.log("[C08] e2e: the process died after poison %s (%s), confirmed alone; going on without it" % (key, first))
+            skipped.append(key)
+        else:
+            raise vlib.Inconclusive("the e2e process died for more than %d different poisons" % len(skipped))
+        import shutil
+        shutil.copy(tfile, trace)
         if evs:
             by_c = {}
             for e in evs:
